@@ -16,7 +16,7 @@ import obs
 MARK = {"ovni": {"mark": {"9": {"title": "sort id", "chan_type": "single"}}}}
 
 
-def gen_stream(rng, tid, scope):
+def gen_stream(rng, tid, scope, before_start=None):
     """Returns (events, n_lookback, info).  Events: list of
     [clock, mcv, payload(bytes), jumbo].  Every event carries a unique id
     so that any permutation is visible."""
@@ -35,7 +35,8 @@ def gen_stream(rng, tid, scope):
     clock = 1000
     # now and then a stream whose first region holds events older than the very
     # first event of the stream (their place is the start of the file)
-    before_start = scope != "fail" and rng.random() < 0.12
+    draw = rng.random() < 0.12
+    before_start = scope != "fail" and (draw if before_start is None else before_start)
     nbase = rng.choice([5, 30, 200, 1500])
     nreg = rng.randint(1, 8)
     reg_at = sorted(rng.sample(range(1, nbase + 1), min(nreg, nbase)))
@@ -131,7 +132,8 @@ def run_case(i):
     streams = []
     need = 0
     for s in range(nstreams):
-        evs, info = gen_stream(rng, 300 + s, scope if s == 0 else "ok")
+        # a later stream of the trace quite often starts with a region that belongs before its first event
+        evs, info = gen_stream(rng, 300 + s, scope if s == 0 else "ok", before_start=(rng.random() < 0.4) if s else None)
         streams.append((300 + s, evs, info))
         need = max(need, info["need"])
     if scope == "ok":
